@@ -106,6 +106,8 @@ def props_assumptions(pid):
     """Re-compile Props/<pid>.v, capturing the Print Assumptions report of each theorem.
     Returns (theorems, closed_count, report) where report maps theorem -> 'closed' | [axioms]."""
     f = COQ / "Props" / f"{pid}.v"
+    if not f.exists():
+        return [], 0, {"_error": f"no theorem file Props/{pid}.v"}
     names = re.findall(r"^Print Assumptions\s+([A-Za-z0-9_']+)\.", f.read_text(), re.M)
     rc, out = sh(f"timeout 600 coqc -Q . EG Props/{pid}.v", cwd=COQ, timeout=630)
     report = {}
